@@ -103,6 +103,7 @@ KindMime(k) ==
     [] k = "bin_html" -> "text/html"                  \* part type text/html
     [] k = "bin_svg"  -> "image/svg+xml"              \* part type image/svg+xml
     [] k = "bin_js"   -> "application/javascript"
+    [] k = "bin_json" -> "application/json"
     [] k = "bin_png"  -> "image/png"                  \* part type image/png
     [] k = "bin_font" -> "font/woff2"
     [] OTHER          -> None
@@ -170,6 +171,10 @@ InFlight(ww, id) == id \in Ids(ww) /\ ww.up[id].st = "started" /\ id \in DOMAIN 
 DoUploadEnd(ww, id) ==
   [ww EXCEPT !.up[id].st = "finished", !.up[id].age = 0, !.disk[id] = ww.up[id].bytes]
 
+\* hdl_files.go:143 `asAttachment, _ := strconv.ParseBool(req.URL.Query().Get("asatt"))`: r.asatt is the raw query
+\* value ("<none>" = parameter absent, "<empty>" = `asatt=`); everything ParseBool does not accept counts as false.
+AsattTrue(v) == v \in {"1", "t", "T", "TRUE", "true", "True"}
+
 \* largeFileServe + fs.Download. r.resolves: GetIdFromUrl(url) yields the id of r.target (0 = no record has it).
 DoDownload(ww, r) ==
   LET g == Gate(ww, "serve", r) IN
@@ -179,7 +184,7 @@ DoDownload(ww, r) ==
   ELSE IF ~DEV_ServeUnfinished /\ ww.up[r.target].st # "finished" THEN Resp(404)
   ELSE IF r.target \notin DOMAIN ww.disk THEN Resp(404)
   ELSE LET m == ww.up[r.target].mime IN
-       [status |-> 200, served |-> ww.disk[r.target], mime |-> m, disp |-> (r.asatt \/ MimeActive(m)), url |-> 0]
+       [status |-> 200, served |-> ww.disk[r.target], mime |-> m, disp |-> (AsattTrue(r.asatt) \/ MimeActive(m)), url |-> 0]
 
 \* refs: sequence of [id, resolves]: the attachment list after mediaHandler.GetIdFromUrl.
 Fids(refs) == LET s == SelectSeq(refs, LAMBDA x : x.resolves) IN [i \in DOMAIN s |-> s[i].id]
